@@ -292,3 +292,44 @@ pub proof fn lemma_if_node(x: ScriptBit, a: Seq<Tok>, b: Seq<Tok>)
         }
     }
 }
+
+// ---- completeness for scripts without conditionals (the overwhelmingly common class): a byte string that tokenizes
+// and contains no IF / NOTIF / VERIF / VERNOTIF opcode is accepted by the parser ----
+pub open spec fn if_byte(b: u8) -> bool { b == 99 || b == 100 || b == 101 || b == 102 }
+pub open spec fn no_if_tokens(t: Seq<Tok>) -> bool { forall|i: int| 0 <= i < t.len() ==> !(#[trigger] t[i] matches Tok::Op(b) && if_byte(b)) }
+pub open spec fn no_if_class(s: Seq<ScriptBit>) -> bool { forall|i: int| 0 <= i < s.len() ==> !(#[trigger] s[i] matches ScriptBit::OpCode(c) && is_if_class(c)) }
+pub proof fn lemma_tok_none(s: Seq<u8>)
+    requires s.len() > 0, tok_head(s) is None
+    ensures tok(s) is None
+{ reveal(tok); }
+// for the tokenizer's flat output every element contributes exactly one token
+pub proof fn lemma_flats_of_flat_input(s: Seq<ScriptBit>)
+    requires flat_input(s)
+    ensures flats(s).len() == s.len(), forall|i: int| 0 <= i < s.len() ==> (#[trigger] flats(s)[i]) == flat(s[i])[0] && flat(s[i]).len() == 1
+    decreases s.len()
+{
+    if s.len() > 0 {
+        let p = s.drop_last();
+        assert(flat_input(p)) by { assert forall|i: int| 0 <= i < p.len() implies !(#[trigger] p[i] is If) by { assert(p[i] == s[i]); } }
+        lemma_flats_of_flat_input(p);
+        assert(!(s.last() is If));
+        assert(flat(s.last()).len() == 1);
+        assert forall|i: int| 0 <= i < s.len() implies (#[trigger] flats(s)[i]) == flat(s[i])[0] && flat(s[i]).len() == 1 by {
+            if i < p.len() { assert(p[i] == s[i]); assert(flats(s)[i] == flats(p)[i]); } else { assert(flats(s)[i] == flat(s.last())[0]); }
+        }
+    }
+}
+pub proof fn lemma_no_if_tokens_no_if_class(s: Seq<ScriptBit>)
+    requires flat_input(s), no_if_tokens(flats(s))
+    ensures no_if_class(s)
+{
+    lemma_flats_of_flat_input(s);
+    assert forall|i: int| 0 <= i < s.len() implies !(#[trigger] s[i] matches ScriptBit::OpCode(c) && is_if_class(c)) by {
+        if let ScriptBit::OpCode(c) = s[i] {
+            if is_if_class(c) {
+                assert(flats(s)[i] == Tok::Op(c as u8));
+                assert(if_byte(c as u8));
+            }
+        }
+    }
+}
